@@ -16,6 +16,7 @@ import z3
 from vt.e1.values import (SArr, SList, STT, SNum, SMaxRank, SInf, INF, SNone, NONE, SOpt, SFunc, SModule, SExc, Unsupported,
                           fresh, fresh_fun, zi, zb, as_conc, is_conc_int, val_ite, arr_ite)
 from vt.e1 import npmodel
+from vt.e1 import heap
 from vt.e1.values import is_tag
 
 
@@ -37,6 +38,9 @@ class Ctx:
         self.modifies_bufs = None     # function(buf_term, state) -> Bool: pre-existing buffers the function may write
         self.unsupported = []
         self.feas_cache = {}
+        self.model_facts = set()
+        self.reach = []               # per verified loop: path conditions at the start and at every end of the body (vacuity guard)
+        self.muted = False
 
     def oblige(self, state, kind, line, goal, detail=''):
         if getattr(self, 'muted', False):
@@ -70,11 +74,15 @@ class State:
         s.env = {k: _clone(v, memo) for k, v in self.env.items()}
         return s
 
-    def assume(self, b):
+    def assume(self, b, model=False):
+        """model=True: a definitional fact of the encoding (e.g. an unfolding instance of an uninterpreted product), exempt
+        from the domain-covers-setup guard"""
         if isinstance(b, bool):
             if not b:
                 self.pc.append(z3.BoolVal(False))
             return
+        if model:
+            self.ctx.model_facts.add(b.get_id())
         self.pc.append(b)
 
     def alloc(self):
@@ -284,6 +292,8 @@ class Executor:
             for tgt in node.targets:
                 if isinstance(v, SList) and isinstance(tgt, ast.Name) and tgt.id in getattr(self.ctx.contract, 'list_kinds', {}):
                     v.kind = self.ctx.contract.list_kinds[tgt.id]
+                    if v.kind == 'ttref':
+                        heap.freeze_items(self, s, v, node.lineno)
                 self.assign(tgt, v, s, node)
             outs.append(Outcome('normal', s))
         return outs
@@ -376,7 +386,9 @@ class Executor:
             sb.env[var] = iv
             for lbl, g in inv(View(sb, self), iv, k):
                 sb.assume(g)
+            start_pc = list(sb.pc)
             body_outs = self.exec_block(node.body, sb)
+            ctx.reach.append({'key': key, 'line': node.lineno, 'start': start_pc, 'ends': [list(o.state.pc) for o in body_outs]})
             for o in body_outs:
                 if o.kind == 'normal':
                     o.state.env[var] = iv + step
@@ -410,7 +422,10 @@ class Executor:
             c = self.truth(c, s)
             st, _ = self.branch(s, c)
             if st is not None:
-                for o in self.exec_block(node.body, st):
+                start_pc = list(st.pc)
+                wouts = self.exec_block(node.body, st)
+                ctx.reach.append({'key': key, 'line': node.lineno, 'start': start_pc, 'ends': [list(o.state.pc) for o in wouts]})
+                for o in wouts:
                     if o.kind == 'normal':
                         for lbl, g in inv(View(o.state, self), None, None):
                             ctx.oblige(o.state, 'inv-pres[%s]:%s' % (key, lbl), node.lineno, g)
@@ -634,6 +649,7 @@ class Executor:
         if ctx.modifies_bufs is not None:
             allowed = z3.Or(allowed, ctx.modifies_bufs(buf, state))
         ctx.oblige(state, 'frame:buffer-write', line, allowed, what)
+        heap.guard_buf(self, state, buf, line)
 
     def frame_list(self, lst, state, line):
         ctx = self.ctx
@@ -641,6 +657,8 @@ class Executor:
         for r in ctx.modifies_lists:
             allowed = z3.Or(allowed, lst.ref == r)
         ctx.oblige(state, 'frame:list-write', line, allowed)
+        if lst.kind != 'ttref':
+            heap.guard_list(self, state, lst.ref, line)
 
     def frame_obj(self, obj, state, line, what):
         ctx = self.ctx
@@ -648,6 +666,7 @@ class Executor:
         for r in ctx.modifies_lists:
             allowed = z3.Or(allowed, obj.ref == r)
         ctx.oblige(state, 'frame:object-write', line, allowed, what)
+        heap.guard_list(self, state, obj.ref, line)
 
     def norm_index(self, lst, idx, state, line, what='index'):
         """python index semantics: negative indices count from the end; obligation: -len <= idx < len"""
@@ -772,6 +791,11 @@ class Executor:
                 return self.list_slice(base, idx, state, line)
             i = self.norm_index(base, idx, state, line)
             v = base.get(i)
+            if base.kind == 'ttref' and not isinstance(v, STT):
+                if not getattr(self.ctx.contract, 'heap_guard', True):
+                    raise Unsupported('read of a state of a trajectory list in a contract without heap guards (line %d)' % line)
+                heap.reveal(self, state, v)
+                return heap.tt_at(v)
             return v
         if is_tag(base, 'shape-of'):
             arr = base[1]
@@ -1170,6 +1194,9 @@ def sym_elem_fn(kind, state):
     if kind == 'bool':
         f = fresh_fun('lb', z3.IntSort(), z3.BoolSort())
         return lambda j, f=f: f(j)
+    if kind == 'num':
+        fz, fn_ = fresh_fun('lnz', z3.IntSort(), z3.BoolSort()), fresh_fun('lge0', z3.IntSort(), z3.BoolSort())
+        return lambda j: SNum('elem', nonzero=fz(j), nonneg=fn_(j))
     if kind == 'arr':
         fs = [fresh_fun('sh%d' % k, z3.IntSort(), z3.IntSort()) for k in range(4)]
         fnd = fresh_fun('nd', z3.IntSort(), z3.IntSort())
